@@ -286,7 +286,7 @@ def subs(tier: str):
         Sub("uniform-prefix", check_prefix, "exhaustive", cases=_prefix_cases, exhaustive_flag=True),
         Sub("legacy-construction-order", check_legacy_sequence, "hypothesis",
             strategy=lambda: st.fixed_dictionaries({"seq": st.lists(st.tuples(st.sampled_from(MODES), st.integers(1, 50)).map(list), min_size=2, max_size=6)}),
-            examples=40 if q else 600),
-        Sub("sequences", check_seq, "hypothesis", strategy=_seq, examples=120 if q else 3000),
-        Sub("unknown", check_unknown, "hypothesis", strategy=_unknown, examples=80 if q else 1500),
+            examples=40 if q else 3000),
+        Sub("sequences", check_seq, "hypothesis", strategy=_seq, examples=120 if q else 15000),
+        Sub("unknown", check_unknown, "hypothesis", strategy=_unknown, examples=80 if q else 8000),
     ]
